@@ -46,7 +46,8 @@ ASSUMPTIONS = [
 FID = {"add": 0, "sub": 1, "mul": 2, "minimum": 3, "maximum": 4, "eq": 5, "ne": 6, "lt": 7, "le": 8, "gt": 9, "ge": 10,
        "and": 11, "or": 12, "xor": 13, "floor_divide": 14, "mod": 15,
        "abs": 20, "neg": 21, "sign": 22, "invert": 23, "ident": 24, "zero": 25, "clip2": 26, "clipmin": 27,
-       "clipmax": 28, "square": 29, "where": 30, "fma": 31, "clip3": 32, "add3": 33, "addk": 34}
+       "clipmax": 28, "square": 29, "where": 30, "fma": 31, "clip3": 32, "add3": 33, "addk": 34,
+       "fma4": 35, "mul3": 36}
 BINARY = ["add", "sub", "mul", "minimum", "maximum", "eq", "ne", "lt", "le", "gt", "ge", "and", "or", "xor",
           "floor_divide", "mod"]
 HAS_OPERATOR = {"add", "sub", "mul", "eq", "ne", "lt", "le", "gt", "ge", "and", "or", "xor", "floor_divide", "mod"}
@@ -92,6 +93,10 @@ def apply_op(op, form, args, params):
             return sparse.elemwise(lambda a, b, c: a * b + c, *args)
         if op == "add3":
             return sparse.elemwise(lambda a, b, c: a + b + c, *args)
+        if op == "mul3":
+            return sparse.elemwise(lambda a, b, c: a * b * c, *args)
+        if op == "fma4":
+            return sparse.elemwise(lambda a, b, c, d: a * b + c * d, *args)
         if op == "clip3":
             return sparse.elemwise(np.clip, *args)
         if op == "addk":
@@ -109,6 +114,8 @@ def apply_op(op, form, args, params):
         if r is not o:
             raise RuntimeError("out= did not return the out object")
         return r
+    if form == "npwhere":
+        return np.where(*args)
     if form == "function":
         if op == "where":
             return sparse.where(*args)
@@ -201,6 +208,18 @@ def impl_kernel(case):
                     "intp": bool(c.dtype == np.intp)}
         except Exception as ex:  # noqa: BLE001
             return {"exc": type(ex).__name__}
+    if k == "mcoo":
+        import warnings
+        warnings.filterwarnings("ignore")
+        arrs = [vlib.build_array(sp) for sp in case["specs"]]
+        try:
+            m = U._Elemwise._match_coo(*arrs, broadcast_shape=tuple(case["bshape"]))
+            c = np.asarray(m[0].coords)
+            cols = c.T.tolist() if c.size else [[] for _ in range(m[0].nnz)]
+            return {"rows": [[[int(v) for v in col], [int(a.data[i]) for a in m]] for i, col in enumerate(cols)],
+                    "shape": [int(d) for d in m[0].shape]}
+        except Exception as ex:  # noqa: BLE001
+            return {"exc": type(ex).__name__, "msg": str(ex)[:100]}
     if k == "bc2":
         try:
             r = [int(v) for v in U._get_broadcast_shape(tuple(case["s1"]), tuple(case["s2"]), case["isr"])]
@@ -763,6 +782,40 @@ def gen_api_cases(tier, rng):
             add(op, pick_binary_form(rng, op, args), args, None, "4d")
         else:
             add(rng.choice(["fma", "add3", "where", "clip3"]), "elemwise", args, None, "4d")
+    # (8) ternary sparse x sparse x sparse: ALL ordered triples of mutually broadcastable shapes of <= 2-d with extents
+    # {1,2,3,4} (every operand order, every layout: row/column vectors against matrices, leading axes, length-1
+    # axes), dense patterns so that positions stored by all three exist; 3-d and 4-operand samples
+    sh2 = shapes_upto(2, (1, 2, 3, 4))
+    triples = [(a, b, c) for a in sh2 for b in sh2 for c in sh2 if np_bshape([a, b, c]) is not None]
+    if quick:
+        keep = [t for t in triples if len({tuple(x) for x in t}) > 1 and max(len(x) for x in t) == 2]
+        rest = [t for t in triples if t not in keep]
+        triples = keep + rng.sample(rest, min(len(rest), 150))
+    for (a, b, c) in triples:
+        for _rep in range(1 if quick else 2):
+            op = rng.choice(["mul3", "mul3", "where", "fma", "add3", "clip3"])
+            fs = rng.choice([(0,), (0,), (0,), (2,), (0, 1)])
+            args = [sparse_arg(rng, sh, fs, FORMATS_ALL, density=rng.choice([0.7, 1.0, 1.0])) for sh in (a, b, c)]
+            form = "elemwise"
+            if op == "where":
+                form = rng.choice(["function", "elemwise", "npwhere"])
+            add("where" if op == "where" else op, form, args, None, "ternary-exhaustive")
+    sh3 = shapes_upto(3, (1, 2, 3))
+    for _ in range(250 if quick else 3000):
+        full = [rng.choice([2, 3, 4]) for _ in range(rng.choice([2, 3]))]
+        k = rng.choice([3, 3, 4])
+        shs = []
+        for _i in range(k):
+            sub = [d if rng.random() < 0.6 else 1 for d in full][rng.choice([0, 0, rng.randint(0, len(full))]):]
+            shs.append(sub)
+        if rng.random() < 0.5:
+            shs[rng.randrange(k)] = list(full)
+        fs = rng.choice([(0,), (0,), (2,), (0, 1)])
+        args = [sparse_arg(rng, sh, fs, FORMATS_ALL, density=rng.choice([0.7, 1.0])) for sh in shs]
+        if k == 3:
+            add(rng.choice(["mul3", "fma", "where", "add3"]), "elemwise", args, None, "ternary-3d")
+        else:
+            add("fma4", "elemwise", args, None, "quaternary")
     # (7) narrow index dtypes: a COO operand with uint8 / int8 coordinates broadcast along an axis that crosses
     # 127 / 255 (the other extents stay tiny), as the single matched operand of a mask (add / sub / maximum with a
     # sparse partner, or a full-shape / constant dense partner)
@@ -829,6 +882,19 @@ def gen_kernel_cases(tier, rng):
             rng.shuffle(pos)                      # the function does not need sorted input
         ks.append({"k": "expand", "ndim": nd, "coords": pos, "data": [rng.randint(1, 9) for _ in pos],
                    "params": params, "bshape": bshape})
+    # _match_coo on two..four canonical operands (its own unsorted intermediate is the left input from the third on)
+    sh2k = [x for x in shapes_upto(2, (1, 2, 3, 4)) if x]      # 0-d operands never reach _match_coo
+    for _ in range(700 if quick else 4000):
+        k = rng.choice([2, 3, 3, 3, 4])
+        while True:
+            shs = [rng.choice(sh2k) for _ in range(k)]
+            if np_bshape(shs) is not None:
+                break
+        specs = []
+        for sh in shs:
+            sp = vlib.gen_array_spec(rng, shape=sh, fills=(0,), formats=("coo",), density=rng.choice([0.5, 0.8, 1.0]))
+            specs.append(sp)
+        ks.append({"k": "mcoo", "specs": specs, "bshape": np_bshape(shs)})
     # the same with narrow coordinate dtypes and a broadcast axis crossing 127 / 255
     for _ in range(40 if quick else 200):
         L = rng.choice([128, 130, 256, 260, 300])
@@ -1038,7 +1104,7 @@ def campaign(build, tier, seed, report, budget=1):
                      "code": code, "case": e2[i][0], "impl": None,
                      "replay_py": "print('model-internal: Model.Elemwise.elemwise2 differs from elemwise on this case')"})
     # ---- kernel level
-    groups = {"match": [], "expand": [], "bc2": [], "nary": [], "params": []}
+    groups = {"match": [], "expand": [], "bc2": [], "nary": [], "params": [], "mcoo": []}
     for i, (c, r) in enumerate(zip(kern, res_k, strict=True)):
         groups[c["k"]].append(i)
     kinfo = {
@@ -1048,6 +1114,9 @@ def campaign(build, tier, seed, report, budget=1):
                    lambda c, r: vpair(vlist(c["coords"], vlist), vlist(c["data"]), vlist(c["params"]), vlist(c["bshape"]),
                                       vlist(r.get("coords", [[-1]]), vlist), vlist(r.get("data", [])),
                                       vbool(r.get("intp", False)))),
+        "mcoo": ("list (coo Z) * shape * list (idx * list Z)", "judge_match_coo",
+                 lambda c, r: vpair(vlist(c["specs"], vlib.spec_coo_lit), vlist(c["bshape"]),
+                                    vlist(r.get("rows", [[[-1], []]]), lambda rw: vpair(vlist(rw[0]), vlist(rw[1]))))),
         "bc2": ("shape * shape * bool * option shape * option shape", "judge_broadcast2",
                 lambda c, r: vpair(vlist(c["s1"]), vlist(c["s2"]), vbool(c["isr"]), vopt(r.get("impl"), vlist), vopt(r.get("np"), vlist))),
         "nary": ("list shape * option shape * option shape", "judge_nary",
